@@ -69,6 +69,13 @@ func c12Gen(rng *rand.Rand) *c12Case {
 			re.WriteString("$")
 		}
 		c.Pattern = re.String()
+		if rng.Intn(40) == 0 {
+			// patterns next to the ones the implementation treats as "everything"
+			k := rng.Intn(8)
+			c.Pattern = []string{".+", "..", ".?", ".*.", "(.*)", ".*$", "^.*", ".+$"}[k]
+			sample.Reset()
+			sample.WriteString([]string{"zz", "zz", "z", "z", "zz", "zz", "zz", "zz"}[k])
+		}
 		if c.Pattern == "." || c.Pattern == ".*" || c.Pattern == "" {
 			continue
 		}
